@@ -3,8 +3,10 @@
 
        if not ignore:
            token = _VALIDATION_ENABLED.set(False)
-           yield
-           _VALIDATION_ENABLED.reset(token)       # skipped when the body raises: no try/finally
+           try:
+               yield
+           finally:
+               _VALIDATION_ENABLED.reset(token)
        else:
            yield
 
@@ -31,7 +33,8 @@ Definition fstep (s : fstate) (e : fev) : fstate :=
       end
   | ExitExc =>
       match fstack s with
-      | _ :: r => mkF (fvar s) r            (* the generator is left at the yield: no reset *)
+      | Some old :: r => mkF old r          (* try/finally: reset(token) also when the body raises *)
+      | None :: r => mkF (fvar s) r
       | [] => s
       end
   end.
@@ -50,8 +53,6 @@ Fixpoint open_blocks (st : list bool) (t : list fev) : option (list bool) :=
 Definition well_nested (t : list fev) : bool := match open_blocks [] t with Some _ => true | None => false end.
 Definition spec_enabled (t : list fev) : bool :=
   match open_blocks [] t with Some st => negb (existsb (fun b => b) st) | None => true end.
-Definition no_exit_exc (t : list fev) : bool :=
-  forallb (fun e => match e with ExitExc => false | _ => true end) t.
 
 (* several threads: each has its own flag state (ContextVar semantics) *)
 Inductive tev := TEv (e : fev) | TProbe.
